@@ -289,11 +289,12 @@ void getPosition(Position& X, Position& Y, Position& pos) {
  * constraints.
  * @param pos target positions of both axes
  */
-void ConstrainedFDLayout::setPosition(Position& pos) {
+void ConstrainedFDLayout::setPosition(Position& pos,
+        const bool recordUnsatisfiable) {
     COLA_ASSERT(Y.size()==X.size());
     COLA_ASSERT(pos.size()==2*X.size());
-    moveTo(vpsc::HORIZONTAL,pos);
-    moveTo(vpsc::VERTICAL,pos);
+    moveTo(vpsc::HORIZONTAL,pos,recordUnsatisfiable);
+    moveTo(vpsc::VERTICAL,pos,recordUnsatisfiable);
 }
 /*
  * Layout is performed by minimizing the P-stress goal function iteratively.
@@ -361,7 +362,10 @@ void ConstrainedFDLayout::run(const bool xAxis, const bool yAxis)
         } else {
             computeDescentVectorOnBothAxes(xAxis,yAxis,stress,x0,x1);
         }
-        setPosition(x1);
+        // This is the projection that decides the positions the iteration
+        // ends with -- and the only one there is for a dimension that is
+        // not being laid out -- so have it record what it had to drop.
+        setPosition(x1,true);
         stress=computeStress();
         FILE_LOG(logDEBUG) << "stress="<<stress;
     } while(!(*done)(stress,X,Y));
@@ -1071,6 +1075,35 @@ void checkUnsatisfiable(const vpsc::Constraints& cs,
         }
     }
 }
+/*
+ * As checkUnsatisfiable(), but only records constraints for which the list
+ * does not already hold an identical entry.  Used for the projection done
+ * by moveTo() at the end of an iteration, which would otherwise repeat what
+ * applyForcesAndConstraints() has recorded for the same dimension.
+ */
+static void checkNewlyUnsatisfiable(const vpsc::Constraints& cs,
+        UnsatisfiableConstraintInfos* unsatisfiable) {
+    for(vpsc::Constraints::const_iterator c=cs.begin();c!=cs.end();++c) {
+        if(!(*c)->unsatisfiable) {
+            continue;
+        }
+        UnsatisfiableConstraintInfo* i=new UnsatisfiableConstraintInfo(*c);
+        bool known=false;
+        for(UnsatisfiableConstraintInfos::const_iterator u=
+                unsatisfiable->begin();u!=unsatisfiable->end()&&!known;++u) {
+            known = ((*u)->cc==i->cc) &&
+                    ((*u)->leftVarIndex==i->leftVarIndex) &&
+                    ((*u)->rightVarIndex==i->rightVarIndex) &&
+                    ((*u)->separation==i->separation) &&
+                    ((*u)->equality==i->equality);
+        }
+        if(known) {
+            delete i;
+        } else {
+            unsatisfiable->push_back(i);
+        }
+    }
+}
 
 void ConstrainedFDLayout::handleResizes(const Resizes& resizeList)
 {
@@ -1083,7 +1116,8 @@ void ConstrainedFDLayout::handleResizes(const Resizes& resizeList)
  * @param dim axis
  * @param target array of desired positions (for both axes)
  */
-void ConstrainedFDLayout::moveTo(const vpsc::Dim dim, Position& target) {
+void ConstrainedFDLayout::moveTo(const vpsc::Dim dim, Position& target,
+        const bool recordUnsatisfiable) {
     COLA_ASSERT(target.size()==2*n);
     FILE_LOG(logDEBUG) << "ConstrainedFDLayout::moveTo(): dim="<<dim;
     valarray<double> &coords = (dim==vpsc::HORIZONTAL)?X:Y;
@@ -1116,6 +1150,10 @@ void ConstrainedFDLayout::moveTo(const vpsc::Dim dim, Position& target) {
         moveBoundingBoxes();
     }
     updateCompoundConstraints(dim, ccs);
+    // This projection also drops the constraints it cannot satisfy.
+    if(recordUnsatisfiable && unsatisfiable.size()==2) {
+        checkNewlyUnsatisfiable(cs,unsatisfiable[dim]);
+    }
     for_each(vs.begin(),vs.end(),delete_object());
     for_each(cs.begin(),cs.end(),delete_object());
 }
